@@ -129,7 +129,83 @@ def run(prop: str, ctx: Ctx, quick: int = 1500, thorough: int = 25000) -> Result
         run_programs(prop, progs[i: i + 200], res, eager_every=4)
         if ctx.time_left() < 0:
             break
+    # minimise the first failing case of each kind so that the replay file is readable
+    if res.violations and res.violations[0].signature != "harness-error":
+        v = res.violations[0]
+        small = shrink(prop, v.case, lambda q: _fails_oracle(prop, q))
+        if small != v.case:
+            r = KRun(small).run()
+            what = (analyze(r)[prop] or [v.what])[0]
+            res.violations[0] = Violation(small, what, v.signature)
+    if res.disagreements:
+        d = res.disagreements[0]
+        small = shrink(prop, d.case, lambda q: _fails_model(prop, q))
+        if small != d.case:
+            r = KRun(small).run()
+            rep = run_model("kernel", [l[0] for l in r.lines])
+            detail = next((f"line {i}: request {req!r}: implementation {exp!r}, model {got!r}"
+                           for i, ((req, exp), got) in enumerate(zip(r.lines, rep)) if exp != got), d.detail)
+            res.disagreements[0] = Disagreement(small, detail)
     return res
+
+
+def _variants(prog: dict):
+    """programs with one statement (at any depth) removed, or a compound statement replaced by its body"""
+    import copy
+
+    def paths(stmts: list, prefix: tuple):
+        for i, st in enumerate(stmts):
+            yield prefix + (i,)
+            if st[0] in ("scope", "group"):
+                yield from paths(st[2], prefix + (i, 2))
+            elif st[0] in ("catch", "catchall"):
+                yield from paths(st[1], prefix + (i, 1))
+            elif st[0] == "finally":
+                yield from paths(st[1], prefix + (i, 1))
+                yield from paths(st[2], prefix + (i, 2))
+
+    roots = [("main",)] + [("tasks", n) for n in prog["tasks"]]
+    for root in roots:
+        body = prog[root[0]] if len(root) == 1 else prog["tasks"][root[1]]
+        for path in list(paths(body, ())):
+            q = copy.deepcopy(prog)
+            cur = q[root[0]] if len(root) == 1 else q["tasks"][root[1]]
+            for k in path[:-1]:
+                cur = cur[k]
+            del cur[path[-1]]
+            yield q
+
+
+def shrink(prop: str, prog: dict, fails, budget_s: float = 20.0) -> dict:
+    """greedy delta debugging on the statement tree: keep removing statements while `fails` holds"""
+    import time
+
+    t0 = time.time()
+    improved = True
+    while improved and time.time() - t0 < budget_s:
+        improved = False
+        for q in _variants(prog):
+            if time.time() - t0 > budget_s:
+                break
+            try:
+                if fails(q):
+                    prog = q
+                    improved = True
+                    break
+            except Exception:
+                continue
+    return prog
+
+
+def _fails_oracle(prop: str, prog: dict) -> bool:
+    r = KRun(prog).run()
+    return bool(analyze(r)[prop])
+
+
+def _fails_model(prop: str, prog: dict) -> bool:
+    r = KRun(prog).run()
+    rep = run_model("kernel", [l[0] for l in r.lines])
+    return any(exp != got for (req, exp), got in zip(r.lines, rep))
 
 
 def replay(prop: str, ctx: Ctx, case: Any) -> Result:
